@@ -69,6 +69,9 @@ ASSUMPTIONS = [
     "same option on every field, several, all; the method table does not read them, the probes do (repr omits repr=False "
     "fields, ==/ordering/hash use the participating fields -- none at all is a legal empty key --, __init__/__match_args__ "
     "skip init=False fields, which stay unset); the own field keeps init=True next to a validator",
+    "mixed slotted/dict hierarchies: the attrs base is slotted below slotted and below dict classes (frozen or not); only the "
+    "two K3 shapes of this harness (plain class in between; inherited slot field re-declared in a dict class) keep a dict base; the slotted base of a dict class is built with getstate_setstate=False, because /repo's K4 repair makes "
+    "'inherits an attrs-generated __getstate__' an extra input of the getstate default, which this model does not carry",
     "decorator-object history: the earlier classes are plain classes with one field and user objects bound to the listed "
     "names; an earlier class the decorator rejects (error) stays in the history; the model is a function of the class alone",
     "one own field x (plus an inherited field y below an attrs base); the decision table does not depend on the fields except "
@@ -332,9 +335,18 @@ def build(case):
     base = root
     ab = case["attrsBase"]
     if ab != "none":
-        # (a slotted attrs base only below a class that will be slotted too: a frozen *dict* class below a
-        # slotted base is K3's shape -- C01/C08 -- and would break the __init__ probe for an unrelated reason)
-        bkw = {"slots": bool(cfg.get("base_slots")) and _slotted_guess(case)}
+        # MIXED hierarchies: a slotted attrs base below a dict class (also a frozen one: the generated initialiser
+        # then has to know that the inherited field lives in the base's slot) -- except in the shapes listed as K3
+        # (C01/C08) on the clean tree, where `base_attr_map` names the wrong class and even the generated __init__
+        # misplaces the value: a plain class between the slotted base and the dict class, and a dict class
+        # re-declaring the base's slot field
+        k3_shape = bool(case["plainMid"]) or (cfg.get("redecl_y") is not None)
+        bkw = {"slots": bool(cfg.get("base_slots")) and (_slotted_guess(case) or not k3_shape)}
+        if bkw["slots"] and not _slotted_guess(case):
+            # /repo (K4 repair) gives a dict class that would inherit an attrs-generated __getstate__ its own pair:
+            # an input of the getstate default this model does not have -- the slotted base of a dict class is
+            # therefore built without pickling helpers (C10 owns that rule)
+            bkw["getstate_setstate"] = False
         if ab == "hooked":
             bkw["on_setattr"] = _hook
         elif ab == "frozen":
@@ -1020,7 +1032,7 @@ def gen_cases(tier, rng):
             yield random_case(rng)
         return
     # quick: a seeded sample of every block, then cross-group combinations
-    per_block = 600
+    per_block = 520
     for blk in BLOCKS:
         _LAZY[0] = True
         try:
@@ -1031,7 +1043,7 @@ def gen_cases(tier, rng):
             recipes = rng.sample(recipes, per_block)
         for block, kw in recipes:
             yield _mk_real(block, **kw)
-    for _ in range(4500):
+    for _ in range(4000):
         yield random_case(rng)
 
 
@@ -1119,7 +1131,7 @@ LEVEL_TEXT = (
     "inherited objects such as object.__hash__ / Base.__repr__ --, "
     "attrs-generated and passing a behaviour probe, None, object.__setattr__, frozen setattr/delattr, generated "
     "__match_args__) and the kind of definition error; thorough tier: exhaustive per-group blocks (about 2.5e5 cases) + 3e4 "
-    "random cross-group cases; quick: 600 sampled cases per block + 4500 random. HISTORY: every class is decorated by a "
+    "random cross-group cases; quick: 520 sampled cases per block + 4000 random. HISTORY: every class is decorated by a "
     "decorator OBJECT (attr.s(...), define(...), frozen(...) called once) that was first applied to 0, 1 or 2 other classes "
     "whose bodies bind other names (the complement of the observed class's group names, and a pseudo-random subset; below "
     "the same bases or below object); the model never reads the history (C14_history_irrelevant), so a decision that "
